@@ -76,9 +76,11 @@ type SPConfig struct {
 	IdPSLO    string    `json:"idpSLO"`
 	Store     []CertRef `json:"store"`
 	NoStore   bool      `json:"noStore,omitempty"`
-	Skip      bool      `json:"skip"`
-	Enc       KeyCfg    `json:"enc"`
-	Sig       KeyCfg    `json:"sig"`
+	// DynStore: the IdP certificate store is a custom (non-memory) implementation, see DynStore.
+	DynStore bool   `json:"dynStore,omitempty"`
+	Skip     bool   `json:"skip"`
+	Enc      KeyCfg `json:"enc"`
+	Sig      KeyCfg `json:"sig"`
 
 	NowUnixNano int64  `json:"now"`
 	NowOffset   int    `json:"nowOffsetMin"`      // zone the fake clock reports in
@@ -171,7 +173,9 @@ func (c SPConfig) Build() *saml2.SAMLServiceProvider {
 		ForceAuthn:                  c.ForceAuthn,
 		IsPassive:                   c.IsPassive,
 	}
-	if !c.NoStore {
+	if c.DynStore {
+		sp.IDPCertificateStore = NewDynStore(c.Store)
+	} else if !c.NoStore {
 		sp.IDPCertificateStore = Store(c.Store)
 	}
 	if !c.NilClock {
